@@ -65,6 +65,11 @@ def _worker_body(pid, tier, wseed, n_examples, part):
             res["excluded"][k] += v
         for lab in out.get("labels", []):
             res["labels"][lab] += 1
+        cfg = trace.get("cfg") if isinstance(trace, dict) else None
+        if isinstance(cfg, dict):
+            for key in ("filter", "root_oids", "storage", "ci"):
+                if cfg.get(key):
+                    res["labels"]["cfg:%s=%s" % (key, cfg[key] if not isinstance(cfg[key], bool) else "on")] += 1
         for k, v in (out.get("counters") or {}).items():
             res["labels"][k] += v
         if out["status"] == "invalid":
